@@ -150,7 +150,12 @@ def validate(
         else:
             continue
         if validator.field is not None:
-            alias = getattr(get_alias(validator.owner), get_field_name(validator.field))
+            # the class aliaser of the validated class, not the one of the class
+            # declaring the validator, gives the key of the field in the data
+            cls = obj.__class__
+            if not (isinstance(cls, type) and issubclass(cls, validator.owner)):
+                cls = validator.owner
+            alias = getattr(get_alias(cls), get_field_name(validator.field))
             err = ValidationError(children={aliaser(alias): err})
         error = merge_errors(error, err)
         if validator.discard:
